@@ -4,6 +4,8 @@ package c16
 import (
 	"context"
 	"fmt"
+	peer "github.com/libp2p/go-libp2p-core/peer"
+	"net/url"
 	"strings"
 	"sync"
 	"time"
@@ -118,9 +120,15 @@ func run(c *fw.Ctx, idx int) {
 	case 1:
 		pin.MaxDepth = api.PinDepth(r.Range(1, 3))
 	}
+	originMark := fmt.Sprintf("/ip4/10.%d.%d.", (idx/250)%250+1, idx%250+1)
 	if r.Chance(1, 4) {
+		// addresses that name this case: connection attempts are made in the background and
+		// may reach the daemon after the conversation is over (even after the next has begun)
 		for i := r.Range(1, 3); i > 0; i-- {
-			pin.Origins = append(pin.Origins, gen.Multiaddr(r, true))
+			o, oerr := ma.NewMultiaddr(fmt.Sprintf("%s%d/tcp/%d/p2p/%s", originMark, i, 4000+i, peer.Encode(gen.Peer(r.Intn(24)))))
+			if oerr == nil {
+				pin.Origins = append(pin.Origins, o)
+			}
 		}
 	}
 	srcState := "n/a"
@@ -325,6 +333,21 @@ func run(c *fw.Ctx, idx int) {
 		}
 		if prior == modeWant && nAdd+nUpd > 0 && !(didFire && faultStep == "pin/ls" && faultNth == 0) {
 			c.Violation("C16/pin/already-pinned-but-requested", fmt.Sprintf("already pinned %s, yet %d pin/add and %d pin/update requests were sent", prior, nAdd, nUpd), detail)
+		}
+		if prior == modeWant && !(didFire && faultStep == "pin/ls" && faultNth == 0) {
+			// ... and nothing else either: no connection attempts towards the origins of
+			// content that is already here (they are made in the background: allow them a moment)
+			time.Sleep(60 * time.Millisecond)
+			nSwarm := 0
+			for _, rq := range e.ipfs.Requests() {
+				if q, _ := url.QueryUnescape(rq.RawQuery); apiStep(rq.Path) == "swarm/connect" && strings.Contains(q, originMark) {
+					nSwarm++
+				}
+			}
+			c.Eval("pin/already-pinned/nothing-else-requested")
+			if nSwarm > 0 {
+				c.Violation("C16/pin/already-pinned-but-requested/swarm-connect", fmt.Sprintf("already pinned %s, yet %d swarm/connect requests were sent", prior, nSwarm), detail)
+			}
 		}
 		if nUpd > 0 && e.ipfs.ModeOf(source) == "" {
 			c.Violation("C16/pin-update/source-unpinned", "the update source is no longer pinned after the update", detail)
